@@ -175,11 +175,16 @@ def nlsat_solver(timeout_ms):
     return z3.TryFor(z3.Tactic("qfnra-nlsat"), timeout_ms).solver()
 
 
+RECORD = None  # when a list: every (conds, status) decided by z3 is appended (for the cvc5 cross-check)
+
+
 def _raw_check(conds, timeout_ms, want_model=False, fallback=True):
     """conds: pure NRA formulas. returns (status, model|None)."""
     s = nlsat_solver(timeout_ms)
     s.add(*conds)
     r = s.check()
+    if RECORD is not None and r == z3.unsat and len(RECORD) < 400:
+        RECORD.append(s.to_smt2() if False else _smt2(conds))
     if r == z3.unknown and fallback:
         s2 = z3.Solver()
         s2.set("timeout", max(1000, timeout_ms // 2))
@@ -195,6 +200,37 @@ def _raw_check(conds, timeout_ms, want_model=False, fallback=True):
         except z3.Z3Exception:
             m = None
     return st, m
+
+
+def _smt2(conds):
+    s = z3.Solver()
+    s.add(*conds)
+    return "(set-logic QF_NRA)\n" + s.to_smt2()
+
+
+def cvc5_check(smt2, tlimit_ms=5000):
+    """re-decide a recorded pure-NRA query with the cvc5 wheel. returns 'unsat' | 'sat' | 'unknown' | 'error:...'"""
+    import cvc5
+
+    try:
+        slv = cvc5.Solver()
+        slv.setOption("tlimit-per", str(tlimit_ms))
+        p = cvc5.InputParser(slv)
+        p.setStringInput(cvc5.InputLanguage.SMT_LIB_2_6, smt2, "q")
+        sm = p.getSymbolManager()
+        res = "unknown"
+        while True:
+            c = p.nextCommand()
+            if c.isNull():
+                break
+            r = str(c.invoke(slv, sm)).strip()
+            if r in ("sat", "unsat", "unknown"):
+                res = r
+            elif r.startswith("(error"):
+                return "error:" + r[:100]
+        return res
+    except Exception as e:  # noqa
+        return f"error:{type(e).__name__}:{str(e)[:80]}"
 
 
 class Verdict:
